@@ -298,7 +298,8 @@ def do_fs(op, a):
             found = list(g.finder.find(a[1], as_sid=True))
             records = list(g.get(a[1], attributes=attrs, sid_encode=enc))
             singles = [g.get_data(x, attributes=attrs, sid_encode=enc) for x in found]
-            return [[[x.string, x.uri] for x in found], [t_record(r) for r in records], [t_record(r) for r in singles]]
+            one = g.get_one(a[1], attributes=attrs, sid_encode=enc)
+            return [[[x.string, x.uri] for x in found], [t_record(r) for r in records], [t_record(r) for r in singles], t_record(one or {})]
         return out(f)
     if op == 'get_paths':
         # (the records are collected first, as a caller keeping the results does, then serialised)
